@@ -3,3 +3,4 @@ import Driver.Graph
 import Driver.Container
 import Driver.Coll
 import Driver.Mw
+import Driver.Conc
